@@ -311,8 +311,18 @@ func (u *UnitsDefinition) handleParseMultiplier(
 				Message: fmt.Sprintf("Failed to parse number as int: %s", result),
 			}
 		}
+		if i != 0 && multiplier > math.MaxInt64/i {
+			return intNumber, floatNumber, isFloat, BadArgumentError{
+				Message: fmt.Sprintf("Number is too large to be represented on 64 bits: %s", result),
+			}
+		}
 		floatNumber += float64(i * multiplier)
 		if !isFloat {
+			if intNumber > math.MaxInt64-i*multiplier {
+				return intNumber, floatNumber, isFloat, BadArgumentError{
+					Message: fmt.Sprintf("Number is too large to be represented on 64 bits: %s", result),
+				}
+			}
 			intNumber += i * multiplier
 		}
 	}
